@@ -177,6 +177,14 @@ def main():
     d = P.dataset([("a", P.option("A"))], effects=[eff])
     ke = ke_history(P, d, [sort_json({"A": 1, "OUT": "x"})])
     save("C03_known_F9", P, {"ke": ke, "root": d, "expect_known": "F9"})
+    # known finding F26: an option value that refers to a template parameter
+    P = Prog()
+    t = P.template("{:n:} -> {PATTERN}", [("n", P.option("N"))])
+    o = sort_json({"N": 7, "PATTERN": "part-{:n:}.csv"})
+    for op in ("evaluate", "keys", "explain"):
+        P.op(op, t, o)
+    save("C09_known_F26", P, {"c09": [{"e": 0, "k": 1, "x": 2, "node": t}], "t": "{:n:} -> {PATTERN}", "expect_known": "F26",
+                                    "expect_known_match": ["keys() fails", "explain() fails"]})
     print(len(list(OUT.glob("*.json"))), "corpus files")
 
 
